@@ -5,7 +5,7 @@ import statsmodels.api as sm
 import torch
 
 from leaspy.io.outputs import IndividualParameters
-from leaspy.utils.typing import DictParamsTorch
+from leaspy.utils.typing import DictParamsTorch, KwargsType
 
 from .stateless import StatelessModel
 
@@ -89,6 +89,16 @@ class LMEModel(StatelessModel):
     def hyperparameters(self) -> DictParamsTorch:
         """Dictionary of values for model hyperparameters."""
         return {}
+
+    def to_dict(self, **kwargs) -> KwargsType:
+        """Export model as a dictionary ready for export.
+
+        The ``with_random_slope_age`` hyperparameter is stored at top-level,
+        where :meth:`.BaseModel.load` reads the keyword arguments of the model.
+        """
+        model_settings = super().to_dict(**kwargs)
+        model_settings["with_random_slope_age"] = self.with_random_slope_age
+        return model_settings
 
     def compute_individual_trajectory(
         self,
